@@ -24,8 +24,8 @@ func init() {
 		Rule: "E1 over token sequences: every sequence up to the length bound over the token alphabet, rendered blank-separated and concatenated, is given to expr.NewExprMachine / leafref.NewLeafrefMachine and to a three-valued reference (XPath 1.0 tokenizer+parser with the section 3.7 rules, core-subset classifier; RFC 6020 path-arg recogniser); " +
 			"plus every single-token deletion, replacement and insertion (whole alphabet, every position) on a corpus of well-formed expressions and on all path-arg derivations of bounded size. UNSPECIFIED strings are counted and skipped. Non-trivial = the reference decides MUST_ACCEPT, or MUST_REJECT for a reason other than a lexical error in the first token.",
 		Bound: map[string]string{
-			"quick":    "expr: all sequences of <=3 tokens over 61 tokens (2 renderings) and <=4 over a 24-token structural sub-alphabet; corpus x single-token mutations. leafref: all sequences of <=5 over 19 tokens; all path-arg derivations with <=2 steps, <=1 predicate x single-token mutations",
-			"thorough": "expr: <=4 tokens over 61 tokens, <=5 over the structural sub-alphabet; leafref: <=6 over 19 tokens, <=8 over the 9 structural tokens; derivations with <=3 steps, <=2 predicates x single-token mutations",
+			"quick":    "expr: all sequences of <=3 tokens over 63 tokens (2 renderings) and <=4 over a 24-token structural sub-alphabet; corpus x single-token mutations. leafref: all sequences of <=5 over 20 tokens; all path-arg derivations with <=2 steps, <=1 predicate x single-token mutations",
+			"thorough": "expr: <=4 tokens over 63 tokens, <=5 over the structural sub-alphabet; leafref: <=6 over 20 tokens, <=8 over the 9 structural tokens; derivations with <=3 steps, <=2 predicates x single-token mutations",
 		},
 		Assumptions: []string{
 			"prefix map knows only 'p'",
@@ -51,6 +51,7 @@ var exprTokens = []string{
 	"a", "(", ")", "/", "[", "]", "=", "'s'", "1", ",", ".", "..", "*", "-", "+", "|", "div", "and", "or", "mod",
 	"concat", "current", "deref", "true", "string", "count", "p:a", "p:*", "p", ":", "q:a", "foo", "node", "text", "child", "::", "@", "//",
 	"!=", "<", "<=", ">", ">=", "$", "!", "\"s\"", "'s", "1.5", ".5", "1.", "1e5", "\x00", "\xff", "#", "é", "'\xff'", "''", "comment", "self", "ancestor", "xml",
+	"\u00a0", "\f", // white space that is not ExprWhitespace (XPath 1.0 [39] S: #x20 #x9 #xD #xA)
 }
 var exprStructural = []string{"a", "(", ")", "/", "[", "]", "=", "'s'", "1", ",", ".", "..", "*", "-", "div", "and", "concat", "current", "deref", "true", "p:a", "|", "string", "<"}
 
@@ -60,9 +61,14 @@ var exprCorpus = [][]string{
 	{"string", "(", "a", ")", "=", "'s'", "or", "true", "(", ")"}, {"a", "[", "a", "=", "1", "]", "[", "p:a", "=", "current", "(", ")", "/", "a", "]"},
 	{"-", "a", "*", "1", "div", "(", "1", "+", "1", ")"}, {"a", "|", "/", "a"}, {"count", "(", "a", ")", ">=", "1"}, {"a", "/", "*"}, {"div", "div", "div"},
 	{"substring", "(", "a", ",", "1", ",", "1", ")"}, {"not", "(", "a", "<", "1", ")", "and", "a", "!=", "\"s\""},
+	// prefixed names written as three tokens, so that single-token mutations fall inside the QName
+	{"p", ":", "a"}, {"/", "p", ":", "a", "[", "p", ":", "a", "=", "1", "]", "/", "p", ":", "*"}, {"concat", "(", "p", ":", "a", ",", "'s'", ")"},
 }
 
-var lrTokens = []string{"/", "a", "..", "[", "]", "=", "current", "(", ")", "p:a", "b", "q:a", "xmla", "*", ".", "1", "'x'", "!=", "|"}
+var lrTokens = []string{"/", "a", "..", "[", "]", "=", "current", "(", ")", "p:a", "b", "q:a", "xmla", "*", ".", "1", "'x'", "!=", "|", "\u00a0"}
+
+// leafref paths whose prefixed names are written as three tokens (mutation bases)
+var lrSplitCorpus = [][]string{{"..", "/", "p", ":", "a"}, {"/", "p", ":", "a", "/", "a", "[", "p", ":", "a", "=", "current", "(", ")", "/", "..", "/", "p", ":", "a", "]", "/", "a"}}
 var lrStructural = []string{"/", "a", "..", "[", "]", "=", "current", "(", ")"}
 
 type rec struct {
@@ -183,44 +189,54 @@ func (r *runner) one(lang string, toks []string, sep string) {
 	if kind == "" {
 		return
 	}
-	key := ""
+	var keys []string
 	if lang == "expr" {
-		key = explainedByVariant(src, ok)
+		keys = explainedByVariants(src, ok)
 	}
-	if key == "" {
+	if len(keys) == 0 {
 		core := shrink(lang, toks, sep, kind)
-		key = fmt.Sprintf("%s-%s:%s", lang, kind, strconv.Quote(render(core, sepName(sep))))
+		keys = []string{fmt.Sprintf("%s-%s:%s", lang, kind, strconv.Quote(render(core, sepName(sep))))}
 	}
-	r.c.Report(engine.Violation{Key: key, Witness: lang + ":" + strconv.Quote(src), Detail: detail, Harness: "c04", Replay: engine.JSON(rec{lang, strconv.Quote(src)})})
+	for _, key := range keys {
+		r.c.Report(engine.Violation{Key: key, Witness: lang + ":" + strconv.Quote(src), Detail: detail, Harness: "c04", Replay: engine.JSON(rec{lang, strconv.Quote(src)})})
+	}
 }
 
-// explainedByVariant re-runs the reference with exactly one named deviation
-// switched on; when the implementation's verdict then agrees, the disagreement
-// is attributed to that deviation.
-func explainedByVariant(src string, implOK bool) string {
-	try := func(flag *bool, name string) string {
-		*flag = true
-		defer func() { *flag = false }()
-		v, _ := xp10.ClassifyCore(src, knownPrefix)
-		if (v == xp10.MustAccept && implOK) || (v == xp10.MustReject && !implOK) || v == xp10.Unspecified {
-			return name
+// explainedByVariants re-runs the reference with named deviations switched on
+// (singly first, then in combination); when the implementation's verdict then
+// agrees, the disagreement is attributed to exactly those deviations.
+func explainedByVariants(src string, implOK bool) []string {
+	names := []string{"expr-accepts:number-with-exponent", "expr-accepts:empty-parentheses", "expr-accepts:white-space-inside-qname"}
+	agrees := func(mask int) bool {
+		xp10.VariantExponentNumbers = mask&1 != 0
+		xp10.VariantEmptyParens = mask&2 != 0
+		defer func() { xp10.VariantExponentNumbers, xp10.VariantEmptyParens = false, false }()
+		text := src
+		if mask&4 != 0 {
+			// white space around the ':' of a QName
+			text = qnameWS.ReplaceAllString(src, "$1:$2")
+			if text == src {
+				return false
+			}
 		}
-		return ""
+		v, _ := xp10.ClassifyCore(text, knownPrefix)
+		if mask&4 != 0 && mask == 4 {
+			return (v == xp10.MustAccept && implOK) || v == xp10.Unspecified
+		}
+		return (v == xp10.MustAccept && implOK) || (v == xp10.MustReject && !implOK) || v == xp10.Unspecified
 	}
-	if k := try(&xp10.VariantExponentNumbers, "expr-accepts:number-with-exponent"); k != "" {
-		return k
-	}
-	if k := try(&xp10.VariantEmptyParens, "expr-accepts:empty-parentheses"); k != "" {
-		return k
-	}
-	// white space around the ':' of a QName
-	if j := qnameWS.ReplaceAllString(src, "$1:$2"); j != src {
-		v, _ := xp10.ClassifyCore(j, knownPrefix)
-		if (v == xp10.MustAccept && implOK) || v == xp10.Unspecified {
-			return "expr-accepts:white-space-inside-qname"
+	for _, mask := range []int{1, 2, 4, 3, 5, 6, 7} { // smallest sets first
+		if agrees(mask) {
+			var ks []string
+			for i, n := range names {
+				if mask&(1<<i) != 0 {
+					ks = append(ks, n)
+				}
+			}
+			return ks
 		}
 	}
-	return ""
+	return nil
 }
 
 var qnameWS = regexp.MustCompile(`([^ \t\r\n:])[ \t\r\n]*:[ \t\r\n]*([^ \t\r\n:])`)
@@ -400,6 +416,9 @@ func run(c *engine.Ctx) {
 			continue
 		}
 		r.mutations("leafref", base, lrTokens, fmt.Sprintf("ld%d", i))
+	}
+	for i, base := range lrSplitCorpus {
+		r.mutations("leafref", base, append(append([]string{}, lrTokens...), "p", ":", "\f"), fmt.Sprintf("ls%d", i))
 	}
 	if len(ders) > 5 {
 		c.Sample(map[string]any{"lang": "leafref", "derivation": strings.Join(ders[len(ders)/2], " ")})
